@@ -84,7 +84,7 @@ def run(ctx):
     # the translation tie: the control skeletons of get_next_imf / sift / mask_sift are regenerated from the source and the
     # refinement theorems to the models used by this property's theorems are re-checked
     ctx.proof(extra=['props/Prop_Tie_Sift.v'])
-    n = 300 if ctx.quick() else 10000
+    n = 300 if ctx.quick() else 4000
     cases = []
     for i in range(n):
         cfg = toys.gen_cfg(ctx.rng)
@@ -112,7 +112,7 @@ def run(ctx):
             bad.append((inp, got, exp))
     ctx.sample(dict(cfg=cases[0][0], signal=cases[0][1]))
     # ---- real numerics
-    nsig = 48 if ctx.quick() else 2400
+    nsig = 48 if ctx.quick() else 800
     for fam, x in siftcore.real_signals(ctx.seed + 1, nsig, 16, 220):
         imf_opts, envelope_opts, extrema_opts = siftcore.real_opts(ctx.rng)
         thr = ctx.rng.choice([1e-8, 1e-8, 1e-3, 0.5])
